@@ -302,3 +302,56 @@ def multi_component_cases(rnd, tier):
                    unifsolve=0, scalero=0, components=ncomp)
         recs.append(rec)
     return recs
+
+
+def direct_call_cases(rnd, tier):
+    """C11 on the reconstructions as the PUBLIC FUNCTIONS they are: `scheme.interp_face(mesh, data, grad)` called by a user who
+    computed the face gradients once (as `modeldisc.calc_grad` does) and hands the SAME mesh, data and gradient objects to a
+    sequence of schemes and to the same scheme again (comparing schemes on one data set is what such code is written for).
+    Every call of the sequence is judged on its own output: constant -> bitwise the cell value, linear -> the profile at the
+    faces whose two gradients are interior.  A scheme that works on its arguments in place (seed C11h: the gradient array halved
+    by `g = grad[i]; g /= 2`) is invisible through the operator, which rebuilds its gradients at every evaluation, and shows up
+    here from the second call on."""
+    recs = []
+    ncase = 40 if tier == "quick" else 400
+    for c in range(ncase):
+        n = rnd.choice([4, 5, 8, 13])
+        m = random_mesh(rnd, n)
+        n = m.ncell
+        xc = np.asarray(m.centers(), dtype=float)
+        xf = np.asarray(m.xf, dtype=float)
+        span = float(xf[-1] - xf[0])
+        ncomp = 1 + c % 3
+        mode = 1 + (c // 3) % 2           # 1 constant, 2 linear
+        al = [rnd.uniform(-3.0, 3.0) for _ in range(ncomp)]
+        be = [0.0] * ncomp if mode == 1 else [rnd.choice([-1, 1]) * rnd.uniform(0.05, 0.3) / max(span, 1e-300) for _ in range(ncomp)]
+        data = [np.array(al[q] + be[q] * (xc - xf[0]), dtype=float) for q in range(ncomp)]
+        grad = []
+        for d in data:                    # modeldisc.fvm1d.calc_grad, verbatim; boundary gradients stay 0 (non periodic)
+            g = np.zeros(n + 1)
+            g[1:-1] = (d[1:] - d[0:-1]) / (xc[1:] - xc[0:-1])
+            grad.append(g)
+        names = [rnd.choice(fd.TOKEN_RECONS) for _ in range(3)]
+        names.append(names[rnd.randrange(3)])          # ... and one of them once more
+        for pos, recon in enumerate(names):
+            try:
+                pL, pR = fd.recon(recon).interp_face(m, data, grad)
+            except Exception as ex:
+                recs.append(O.raised_record(ex, recon=recon, n=n, bcl="direct", bcr="direct"))
+                continue
+            const_bad, worst = 0, 0
+            for q in range(ncomp):
+                cell = al[q] + be[q] * (xc - xf[0])            # recomputed, not the (possibly modified) argument
+                if mode == 1:
+                    const_bad += int(np.sum(pL[q][1:] != cell)) + int(np.sum(pR[q][:-1] != cell))
+                elif recon != "extrapol1" and n >= 3:
+                    if recon in ("muscl_vanalbada", "muscl_vanleer") and abs(be[q]) < 1e-3:
+                        continue        # phi(a, a) = a within a relative 1e-20 / a^2 only (C12): slopes of 1e-3 and more, as above
+                    sc = float(np.max(np.abs(cell))) + abs(be[q]) * span
+                    for k in range(1, n - 1):
+                        worst = max(worst, core.ulps(pL[q][k + 1], al[q] + be[q] * (xf[k + 1] - xf[0]), sc),
+                                    core.ulps(pR[q][k], al[q] + be[q] * (xf[k] - xf[0]), sc))
+            recs.append(dict(kind="tok", n=n, recon=recon, bcl="direct", bcr="direct", mode=mode, model="direct%d" % pos, flux="none",
+                             cons=0, perflux=0, wall=0, unif=0, const=const_bad, linear=min(worst, core.ULP_CAP), shift=0, mirror=0,
+                             solve=0, implicit=0, scaling=0, unifsolve=0, scalero=0, components=ncomp))
+    return recs
